@@ -15,6 +15,8 @@ import (
 //	for _, v := range slices.Backward(B)   descending (also with index)
 //	for i := c; i < len(B)+c; i++          ascending, element B[i-c]   (also `<= len(B)+c-1`)
 //	for i := len(B)-1+c; i >= c; i--       descending, element B[i-c]  (also `> c-1`)
+//	for r := B; len(r) > 0; r = r[1:]      ascending, element r[0] (r[k]: k positions ahead)
+//	for r := B; len(r) > 0; r = r[:len(r)-1]   descending, element r[len(r)-1]
 //
 // A loop whose bounds skip an element, whose index variable is assigned in the body, or whose shape is not listed is
 // not an ElemLoop (ok=false): callers treat that as "cannot show that every element is visited in order".
@@ -28,6 +30,7 @@ type ElemLoop struct {
 	index types.Object          // index variable (nil if none)
 	off   int64                 // element = B[index - off]
 	alias map[types.Object]bool // body locals defined once as `x := <element>`
+	window types.Object         // the shrinking sub-slice variable of the last two shapes (nil otherwise)
 }
 
 // IsElem reports whether e denotes the element of the current iteration: the range value variable, or B[i-off].
@@ -46,6 +49,10 @@ func (l *ElemLoop) IsElem(e ast.Expr) bool {
 		}
 	}
 	ix, ok := e.(*ast.IndexExpr)
+	if ok && l.window != nil {
+		k, isW := l.windowOffset(ix)
+		return isW && k == 0
+	}
 	if !ok || l.index == nil || !sameExpr(l.info, ix.X, l.Base) {
 		return false
 	}
@@ -53,10 +60,33 @@ func (l *ElemLoop) IsElem(e ast.Expr) bool {
 	return ok && v == l.index && k == -l.off
 }
 
+// windowOffset: ix indexes the window variable; the distance (in index order of B) from the current element.
+func (l *ElemLoop) windowOffset(ix *ast.IndexExpr) (int64, bool) {
+	id, ok := ast.Unparen(ix.X).(*ast.Ident)
+	if !ok || l.info.ObjectOf(id) != l.window {
+		return 0, false
+	}
+	if !l.Desc {
+		k, isC := ConstInt(l.info, ix.Index)
+		return k, isC && k >= 0
+	}
+	b, c, isL := lenPlusConst(l.info, ix.Index)
+	if !isL || c > -1 {
+		return 0, false
+	}
+	if bid, isId := ast.Unparen(b).(*ast.Ident); !isId || l.info.ObjectOf(bid) != l.window {
+		return 0, false
+	}
+	return c + 1, true // r[len(r)-1] is the element, r[len(r)-2] the one before it
+}
+
 // Offset reports that e is B[i+k] for the loop's slice B and returns the distance of that element from the element of
 // the current iteration in index order (0: the current element, +1: the element with the next higher index).
 func (l *ElemLoop) Offset(e ast.Expr) (int64, bool) {
 	ix, ok := ast.Unparen(e).(*ast.IndexExpr)
+	if ok && l.window != nil {
+		return l.windowOffset(ix)
+	}
 	if !ok || l.index == nil || !sameExpr(l.info, ix.X, l.Base) {
 		return 0, false
 	}
@@ -289,6 +319,9 @@ func elemLoopOf(info *types.Info, s ast.Stmt) (*ElemLoop, bool) {
 			return nil, false
 		}
 		idx := info.ObjectOf(iv)
+		if wl, isW := windowLoopOf(info, t, idx, init.Rhs[0]); isW {
+			return wl, true
+		}
 		post, ok := t.Post.(*ast.IncDecStmt)
 		if !ok || idx == nil {
 			return nil, false
@@ -374,4 +407,71 @@ func elemLoopOf(info *types.Info, s ast.Stmt) (*ElemLoop, bool) {
 		}
 	}
 	return nil, false
+}
+
+// windowLoopOf recognises `for r := B; len(r) > 0; r = r[1:]` and `for r := B; len(r) > 0; r = r[:len(r)-1]`.
+func windowLoopOf(info *types.Info, t *ast.ForStmt, w types.Object, base ast.Expr) (*ElemLoop, bool) {
+	if w == nil || t.Cond == nil || t.Post == nil {
+		return nil, false
+	}
+	if _, isSlice := w.Type().Underlying().(*types.Slice); !isSlice {
+		return nil, false
+	}
+	isW := func(e ast.Expr) bool {
+		id, ok := ast.Unparen(e).(*ast.Ident)
+		return ok && info.ObjectOf(id) == w
+	}
+	// the condition: len(r) > 0, len(r) != 0, len(r) >= 1, 0 < len(r)
+	cond, ok := ast.Unparen(t.Cond).(*ast.BinaryExpr)
+	if !ok {
+		return nil, false
+	}
+	op, x, y := cond.Op, cond.X, cond.Y
+	if _, isC := ConstInt(info, x); isC {
+		x, y = y, x
+		switch op {
+		case token.LSS:
+			op = token.GTR
+		case token.LEQ:
+			op = token.GEQ
+		case token.NEQ:
+		default:
+			return nil, false
+		}
+	}
+	b, c, isL := lenPlusConst(info, x)
+	k, isK := ConstInt(info, y)
+	if !isL || c != 0 || !isW(b) || !isK {
+		return nil, false
+	}
+	if !((op == token.GTR && k == 0) || (op == token.NEQ && k == 0) || (op == token.GEQ && k == 1)) {
+		return nil, false
+	}
+	post, ok := t.Post.(*ast.AssignStmt)
+	if !ok || post.Tok != token.ASSIGN || len(post.Lhs) != 1 || len(post.Rhs) != 1 || !isW(post.Lhs[0]) {
+		return nil, false
+	}
+	sl, ok := ast.Unparen(post.Rhs[0]).(*ast.SliceExpr)
+	if !ok || !isW(sl.X) || sl.Slice3 {
+		return nil, false
+	}
+	l := &ElemLoop{Stmt: t, Base: base, Body: t.Body, info: info, window: w}
+	switch {
+	case sl.Low != nil && sl.High == nil:
+		if k, isC := ConstInt(info, sl.Low); !isC || k != 1 {
+			return nil, false
+		}
+	case sl.Low == nil && sl.High != nil:
+		hb, hc, isH := lenPlusConst(info, sl.High)
+		if !isH || hc != -1 || !isW(hb) {
+			return nil, false
+		}
+		l.Desc = true
+	default:
+		return nil, false
+	}
+	if assignedIn(info, t.Body, w) {
+		return nil, false
+	}
+	return l, true
 }
